@@ -281,8 +281,13 @@ def _pair(M, c):
         if kind == "utc":
             return P.DateTime(*A, tzinfo=P.UTC), P.DateTime(*B, tzinfo=P.UTC), kind
         if kind == "fixed":
-            tz = P.tz.timezone.FixedTimezone((c["so"] * 977) % 172799 - 86399)
-            return P.DateTime(*A, tzinfo=tz), P.DateTime(*B, tzinfo=tz), kind
+            off = (c["so"] * 977) % 172799 - 86399
+            if c["so"] % 3 == 0:
+                off = off // 60 * 60          # whole minutes (what parsing and pickling produce)
+            tz = P.tz.timezone.FixedTimezone(off)
+            # a third of the pairs carry one (equal) timezone object per endpoint - parsed, unpickled or separately built values
+            tz2 = P.tz.timezone.FixedTimezone(off) if c["so"] % 3 != 1 else tz
+            return P.DateTime(*A, tzinfo=tz), P.DateTime(*B, tzinfo=tz2), kind
         zn = c["zn"]
         out = []
         for F in (A, B):
